@@ -36,6 +36,13 @@ def build(tier, ctx):
             if dsl.depth_has_loop(d):
                 tasks.append({"name": nm, "defn": dsl.to_list(d), "k": 3,
                               "pres": ["canonical"], "mode": "c01"})
+    # the families beyond the size bound also in worker processes with
+    # other string-hash seeds
+    for hs in (1, 2, 3):
+        for nm, d in pvcommon.extended_defs(0, staged=True, bunched=False,
+                                            stretched=None):
+            tasks.append({"name": nm, "defn": dsl.to_list(d), "k": 2,
+                          "pres": ["canonical"], "mode": "c01", "seed": hs})
     # bulk evidence: more than a thousand jobs in one run
     for nm, d in pvcommon.scope_defs(ctx["repo"], 3 if tier == "quick" else 4,
                                      with_corpus=False):
@@ -111,6 +118,10 @@ def collect(tier, tasks, results, ctx):
             "definitions containing at least one fork or loop")
     return pvsweep.collect_generic(ID, tier, tasks, results, bounds, rule,
                                    LEVEL)
+
+
+def seed_of(task):
+    return task.get("seed", 0)
 
 
 def replay(rec, ctx):
